@@ -198,6 +198,12 @@ def generate(rng, tier, idx):
             op['pseed'] = rng.randrange(1000)
         if 'switch' in repr(subj['ctor']) and rng.random() < 0.4:
             op['arm'] = True
+        if rng.random() < 0.12:
+            # a fit that is interrupted part-way (Ctrl-C, MemoryError) - the object is kept and
+            # fitted again later; that later fit is compared with a fresh one as always
+            ops.append({'op': 'fit_interrupted', 'data': _data(rng, kind, 'good'),
+                        'state': rng.randrange(2**31), 'frac': rng.random(),
+                        'kind': rng.choice(['KeyboardInterrupt', 'MemoryError', 'ValueError'])})
         ops.append(op)
         if rng.random() < 0.45:
             ops.append({'op': 'use', 'seed': rng.randrange(1000)})
@@ -323,6 +329,12 @@ def _fit(model, subj, data, state, poison, pseed, arm):
         SwitchMarginal.armed = False
 
 
+def _call_fit(model, subj, data):
+    if subj['kind'] == 'vine':
+        return model.fit(data, truncated=subj.get('truncated', 3))
+    return model.fit(data)
+
+
 def _subject_name(subj, method):
     return subj['cls'] + '.' + method
 
@@ -381,6 +393,28 @@ def execute(run):
                 _check_unfitted(ctx, fresh, subj, 'after a refused fit (%s)'
                                 % op['data'].get('mode', op['data'].get('what')), d)
             ctx.event('misuse_after_refusal', outcome_class(out))
+            continue
+        if op['op'] == 'fit_interrupted':
+            from copsim.seams import CrashTracer, body_codes_of
+            data = _make_data(op['data'])
+            counter = CrashTracer(body_codes_of(live, 'fit'), at=None)
+            probe = copy.deepcopy(live)
+            counter.body_codes = set(body_codes_of(probe, 'fit'))
+            SwitchMarginal.armed = False
+            with sterile(op['state']), Poison('zero'), counter:
+                outcome(_call_fit, probe, subj, data)
+            K = counter.count
+            if K > 0:
+                at = min(int(op['frac'] * K), K - 1)
+                tr = CrashTracer(body_codes_of(live, 'fit'), at=at, kind=op['kind'])
+                with sterile(op['state']), Poison('zero'), tr:
+                    o = outcome(_call_fit, live, subj, data)
+                if tr.fired:
+                    ctx.faults['F1_exception_inside_fit:' + op['kind']] += 1
+                    ctx.nontrivial = True
+                n_fit_calls += 1
+                seq.append('interrupted:' + outcome_class(o))
+                ctx.event('fit_interrupted', outcome_class(o), bool(tr.fired))
             continue
         if op['op'] == 'fit':
             data = _make_data(op['data'])
